@@ -21,7 +21,7 @@ use typstyle_core::{Config, Typstyle};
 pub struct Real;
 
 fn to_config(c: &Cfg) -> Config {
-    Config { max_width: c.max_width, tab_spaces: c.tab_spaces, reorder_import_items: c.reorder, ..Default::default() }
+    Config { max_width: c.max_width, tab_spaces: c.tab_spaces, reorder_import_items: c.reorder, blank_lines_upper_bound: c.blank }
 }
 
 fn fixed_id() -> typst_syntax::FileId {
@@ -190,6 +190,25 @@ fn full_levels(m: &Model, thorough: bool, forms1: &[&str], forms_k2: &[&str], fo
         &["nl_sp12", "nl"],
         &["nl_sp12", "nl"],
     ));
+    // closure bodies one production deep with a comment at every gap: the choice between braces and
+    // parentheses around a statement-like body depends on comments anywhere below it
+    v.push(lvl(
+        "arg,let/closure bodies/k2/comments",
+        sweep::skeletons(m, &["arg", "let"], &[2], &[Size::Short])
+            .into_iter()
+            .filter(|sk| m.prods[sk.spine[0].0].name.starts_with("clos") && sk.spine[0].1 + 1 == m.prods[sk.spine[0].0].holes)
+            .collect(),
+        &["lc", "bc", "nl_lc"],
+        &[],
+    ));
+    // a 130-character first atom: the rest of the line sits in an absolute column window (beyond 80 /
+    // 120 columns) whatever the configured width is, two productions deep
+    v.push(lvl(
+        "codeblock,let/k2 below a later hole/long first atom/dev0",
+        sweep::skeletons(m, &["codeblock", "let"], &[2], &[Size::Long]).into_iter().filter(|sk| sk.spine[0].1 >= 1).collect(),
+        &[],
+        &[],
+    ));
     if thorough {
         v.push(lvl("ctx*/k<=1/two line breaks", sweep::skeletons(m, &all, &[1], &[Size::Short, Size::AllMid]), &["nl_sp12", "nl"], &["nl_sp12", "nl"]));
         v.push(lvl("ctx*/k<=1/dev2", sweep::skeletons(m, &all, &[1], &[Size::Short]), forms2, forms2));
@@ -266,8 +285,9 @@ fn directive_args_level(m: &Model, thorough: bool, with_comment: bool) -> Level 
                 matches!(n, "named" | "spread" | "clos1") || (thorough && matches!(n, "dict1" | "dict_keyed" | "dict_spread" | "let_fn"))
             })
             .collect(),
-        if with_comment { &["off_bc", "bc"] } else { &["off_bc", "off_lc"] },
-        if with_comment { &["off_bc", "bc"] } else { &[] },
+        // (a line break too: a protected node that spans lines is reproduced with its line break)
+        if with_comment { &["off_bc", "bc", "nl"] } else { &["off_bc", "off_lc"] },
+        if with_comment { &["off_bc", "bc", "nl"] } else { &[] },
     )
 }
 
@@ -333,7 +353,9 @@ fn grammar_coverage(files: &[String]) -> i32 {
 
 fn plan_for(id: &str, thorough: bool) -> Option<Plan> {
     let m = Model::new();
-    let std_policy = |tabs_sparse: &[usize]| CfgPolicy::standard(if thorough { 400 } else { 160 }, &[2], tabs_sparse);
+    // blank_lines_upper_bound: the default 2 everywhere; the other values at two widths per input
+    let blanks: Vec<usize> = if thorough { vec![0, 1, 3, usize::MAX] } else { vec![0, usize::MAX] };
+    let std_policy = |tabs_sparse: &[usize]| CfgPolicy { blanks: blanks.clone(), tabs_edge: vec![0, 1], ..CfgPolicy::standard(if thorough { 400 } else { 160 }, &[2], tabs_sparse) };
     let sparse: &[usize] = if thorough { &[1, 3, 4, 8] } else { &[4] };
     let two_uses = "max_width is read in exactly two places of typstyle-core (doc.pretty(max_width) and Config::chain_width); for w >= W*(x) = max(longest line of F_inf(x), ceil(|x|/0.6)+2) the output equals F_inf(x), so [0, W*+3] plus the fixed extras covers all max_width >= 0 for that input".to_string();
     let wrapper = "sweeps call Typstyle::format_source on Source::new(fixed FileId, text) (what format_content does after Source::detached) to avoid typst_syntax's global FileId interner lock; the equality with format_content is re-checked once per input".to_string();
@@ -400,7 +422,12 @@ fn plan_for(id: &str, thorough: bool) -> Option<Plan> {
                     full_levels(&m, false, model::FORMS_ALL, model::FORMS_QUICK, &["nl"]).into_iter().find(|l| l.name.starts_with("codeblock,let,arg/chains")).unwrap(),
                 ])
             },
-            extra: vec![prose_extra(thorough)],
+            extra: vec![
+                prose_extra(thorough),
+                // what the trailing-blank pass sees: its first run must leave nothing for a second one
+                ExtraLevel { name: "degenerate documents".into(), inputs: families::degenerate() },
+                ExtraLevel { name: "line ends inside verbatim text: carriers x blank characters x LF/CRLF/CR/mixed x clean/dirty remainder".into(), inputs: families::line_ends() },
+            ],
             policy: std_policy(sparse),
             assumptions: vec![two_uses, wrapper],
             model: m,
@@ -574,6 +601,8 @@ fn plan_for(id: &str, thorough: bool) -> Option<Plan> {
                 tabs_full: vec![1, 2, 3, 4, 5, 6, 7, 8],
                 tabs_sparse: vec![3, 5, 7],
                 reorder: vec![false],
+                blanks: vec![],
+                tabs_edge: vec![],
             },
             assumptions: vec![wrapper, "no-wrap width = 10^4 * (1 + |x|), beyond any line the formatter can produce for x".into()],
             model: m,
@@ -581,6 +610,14 @@ fn plan_for(id: &str, thorough: bool) -> Option<Plan> {
         "C13" => {
             let all = all_ctx();
             let mut levels = vec![lvl("ctx*/k<=1/dev<=1", sweep::skeletons(&m, &all, &[0, 1], &[Size::Short]), if thorough { model::FORMS_QUICK } else { &model::FORMS_QUICK[..6] }, &[])];
+            // every Typst line terminator that is not LF (multi-byte ones included) in the contexts whose
+            // column arithmetic depends on "the last line break before the node"
+            levels.push(lvl(
+                "markup,math ctx/k<=1/every other line terminator",
+                sweep::skeletons(&m, &["doc", "item", "content_ml", "heading", "mixed", "math_b"], &[0, 1], &[Size::Short]),
+                &["crlf", "cr", "ls", "ff", "nel", "ps"],
+                &[],
+            ));
             if thorough {
                 levels.push(lvl("ctx*/k<=1/all forms", sweep::skeletons(&m, &all, &[0, 1], &[Size::Short]), model::FORMS_ALL, &[]));
                 levels.push(lvl("main/k2/dev0", sweep::skeletons(&m, &MAIN_CTX, &[2], &[Size::Short]), &[], &[]));
@@ -610,7 +647,7 @@ fn plan_for(id: &str, thorough: bool) -> Option<Plan> {
                 oracle: Box::new(oracles::range::C13),
                 levels,
                 extra: vec![ExtraLevel { name: if thorough { "single-character damages (delete, duplicate, replace)".into() } else { "single-character damages (delete)".into() }, inputs: damaged }],
-                policy: CfgPolicy { widths: Widths::Fixed(vec![80, 0]), tabs_full: vec![2], tabs_sparse: if thorough { vec![4] } else { vec![] }, reorder: vec![false] },
+                policy: CfgPolicy { widths: Widths::Fixed(vec![80, 0]), tabs_full: vec![2], tabs_sparse: if thorough { vec![4] } else { vec![] }, reorder: vec![false], blanks: if thorough { vec![0, usize::MAX] } else { vec![] }, tabs_edge: if thorough { vec![0, 1] } else { vec![] } },
                 assumptions: vec![
                     "format_source_range is called on Source::new(fixed FileId, text); one Source per (input, configuration)".into(),
                     "configurations: (w=80,tab=2), (w=0,tab=2); thorough adds tab=4".into(),
@@ -642,7 +679,7 @@ fn plan_for(id: &str, thorough: bool) -> Option<Plan> {
                     &[("bc", "/*c*/"), ("lc", "//c\n"), ("bc_sp", " /*c*/ "), ("nl", "\n")],
                 ),
             }],
-            policy: CfgPolicy { widths: Widths::All { cap: 160 }, tabs_full: vec![2], tabs_sparse: vec![], reorder: vec![false, true] },
+            policy: CfgPolicy { widths: Widths::All { cap: 160 }, tabs_full: vec![2], tabs_sparse: vec![], reorder: vec![false, true], blanks: vec![], tabs_edge: vec![] },
             assumptions: vec![two_uses, wrapper],
             model: m,
         },
